@@ -7,7 +7,7 @@ import benchgen as G
 import vcheck as V
 
 KEEP = {"reset", "bench_call", "precision_begin", "precision_end", "ts",
-        "initial_start", "loop_begin", "call", "tally_snapshot", "round_end",
+        "initial_start", "loop_begin", "call", "count", "tally_snapshot", "round_end",
         "test_break", "user_panic", "bench_return", "report", "report_failed",
         "sched_end"}
 
